@@ -26,7 +26,7 @@ ASSUMPTIONS = ['stats_calc_period=-1, digitiser statistics from <= 2*taps*branch
                'twin source + single request is the stream reference (chunk invariance of sources is C10/C15)',
                'reference DFT in complex128; tie window 1e-6']
 REQUIRED_CLASSES = ['bits=8', 'bits=4', 'pols=1', 'pols=2', 'single', 'array', 'digitize', 'nodigitize', 'asc', 'desc',
-                    'nsb_nondivisor', 'nsb_exceeds', 'multi_file', 'multi_block']
+                    'nsb_nondivisor', 'nsb_exceeds', 'multi_file', 'multi_block', 'long_block', 'history=after_success', 'history=after_abort']
 
 
 def _with_noise(c):
@@ -38,9 +38,22 @@ def _with_noise(c):
     return c
 
 
+@st.composite
+def strategy_(draw, tier):
+    c = draw(volt.volt_config(max_blocks=7 if tier == 'thorough' else 5, max_m=12 if tier == 'thorough' else 8).map(_with_noise))
+    if draw(st.integers(0, 24)) == 0:
+        # a real block holds thousands of spectra: one channelize call beyond 4096 output rows
+        c.update(B=8, taps=draw(st.integers(4, 5)), m=draw(st.integers(1050, 1300)), nblocks=draw(st.integers(1, 2)),
+                 num_chans=draw(st.integers(1, 2)), start_chan=1, nsb=draw(st.sampled_from([1, 1, 2, 3])), array=False, na=1, delays=None)
+        c['long_block'] = True
+    c['history'] = draw(st.sampled_from([None, None, 'after_success', 'after_abort']))
+    c['abort_call'] = draw(st.integers(2, 6))
+    c['period'] = draw(st.sampled_from([-1, -1, 0, 1]))
+    return c
+
+
 def strategy(tier):
-    return volt.volt_config(max_blocks=7 if tier == 'thorough' else 5,
-                            max_m=12 if tier == 'thorough' else 8).map(_with_noise)
+    return strategy_(tier)
 
 
 def quantize_ref(x, lead, tstd, bits):
@@ -86,6 +99,8 @@ def reference_blocks(c, x_all):
 
 def partitions(c):
     m = c['m']
+    if c.get('long_block'):
+        return [(c['nsb'], c['bpf']), (7, 1), (1, 2)][:3] if c['nsb'] != 7 else [(7, 1), (1, 2)]
     if m <= 4:
         nsbs = list(range(1, m + 4))
     else:
@@ -178,7 +193,69 @@ def run_case(case, ctx):
         obs.fail(f'reference_mismatch:bits{c["nbits"]}:{"dig" if c["digitize"] else "nodig"}',
                  f'{int(bad.sum())} of {bad.size} samples differ; first: channel {ch} block {blk} spectrum {row} pol {p} '
                  f'got {got[ch, t, p]} expected {exp[ch, t, p]}; parts={parts[0]} m={m} taps={c["taps"]} B={c["B"]} array={c["array"]}')
+    if c.get('long_block'):
+        obs.cls('long_block')
+    # ---- the same backend used again: what a recording writes depends on the antenna state and the arguments only ----
+    hist = c.get('history')
+    if hist and not obs.violations and not c.get('long_block'):
+        obs.cls('history=' + hist)
+        rerecord_facet(obs, c, ctx, hist)
     nonconst = len(np.unique(got)) > 1
     nsb_eff = min(c['nsb'], m)
     obs.nontrivial = (c['nblocks'] >= 2 or nsb_eff >= 2) and nonconst and any((m % n) or n > m for n, _ in parts)
     return obs
+
+
+class _Abort(Exception):
+    pass
+
+
+def rerecord_facet(obs, c, ctx, hist):
+    """Setup A: one backend performs a (successful or aborted) recording and then records again. Setup B: an identical
+    antenna goes through the same requests, but the final recording is made by a FRESH backend of the same
+    configuration. The final files must be identical (quantiser statistics, PFB tails and counters are per recording)."""
+    period = c.get('period', -1)
+    outs = []
+    for setup in ('A', 'B'):
+        src = volt.build_source(c)
+        be1 = volt.build_backend(c, src, period=period)
+        real = src.get_samples
+        if hist == 'after_abort':
+            calls = {'n': 0}
+
+            def failing(n, real=real, calls=calls):
+                calls['n'] += 1
+                if calls['n'] == c['abort_call']:
+                    raise _Abort()
+                return real(n)
+            src.get_samples = failing
+        try:
+            volt.record(be1, ctx.path(f'h1{setup}'), c)
+            if hist == 'after_abort' and False:
+                pass
+        except _Abort:
+            pass
+        except BaseException as exc:
+            who, where = core.classify_exception(exc)
+            if who == 'setigen':
+                obs.fail('raises:first_recording:' + where, repr(exc)[:200])
+                return
+            raise
+        src.get_samples = real
+        be2 = be1 if setup == 'A' else volt.build_backend(c, src, period=period)
+        stem = ctx.path(f'h2{setup}')
+        ok, _ = core.call(obs, 'record[second]', volt.record, be2, stem, c)
+        if not ok:
+            return
+        try:
+            data, blocks = volt.read_payloads(stem)
+        except ref_guppi.RawFormatError as e:
+            obs.fail('unparseable_second_recording', str(e)[:200])
+            return
+        outs.append(data)
+    if outs[0] != outs[1]:
+        a = np.frombuffer(outs[0], dtype=np.int8)
+        b = np.frombuffer(outs[1], dtype=np.int8)
+        n = int(np.sum(a != b)) if a.shape == b.shape else -1
+        obs.fail(f'second_recording_depends_on_backend_history:{hist}:period{period}',
+                 f'{n} of {a.size} bytes differ between a re-used backend and a fresh backend on the same antenna state')
